@@ -180,6 +180,8 @@ func (c *XAConn) createOnceTxContext(ctx context.Context) bool {
 
 func (c *XAConn) createNewTxOnExecIfNeed(ctx context.Context, f func() (types.ExecResult, error)) (result types.ExecResult, err error) {
 	var tx driver.Tx
+	// a branch opened here is for this one statement
+	onceBranch := false
 
 	defer func() {
 		recoverErr := recover()
@@ -201,11 +203,18 @@ func (c *XAConn) createNewTxOnExecIfNeed(ctx context.Context, f func() (types.Ex
 			}
 			result, err = nil, fmt.Errorf("xa exec panic: %v", recoverErr)
 		}
+		if onceBranch {
+			// afterwards the connection is in autocommit mode again (BeginTx has switched the flag
+			// off), so that the next autocommit statement on the same connection gets a branch of its
+			// own instead of running outside any
+			c.autoCommit = true
+		}
 	}()
 
 	currentAutoCommit := c.autoCommit
 	if c.txCtx.TransactionMode != types.Local && tm.IsGlobalTx(ctx) && c.autoCommit {
 		tx, err = c.BeginTx(ctx, driver.TxOptions{Isolation: driver.IsolationLevel(gosql.LevelDefault)})
+		onceBranch = true
 		if err != nil {
 			return nil, err
 		}
@@ -354,6 +363,9 @@ func (c *XAConn) Commit(ctx context.Context) error {
 	if c.xaResource.XAPrepare(ctx, c.xaBranchXid.String()) != nil {
 		return c.commitErrorHandle(ctx)
 	}
+	// the branch is prepared and no longer active on this connection: the next global transaction that
+	// gets the connection from the pool starts a branch of its own
+	c.cleanXABranchContext()
 	return nil
 }
 
